@@ -165,15 +165,34 @@ func (c *Ctx) Violation(sig, what string, scenario interface{}) {
 // Crumb writes the scenario about to be executed to the breadcrumb file, so that a worker killed
 // by a fatal error (which Go cannot recover) is attributed to that execution by the driver.
 func (c *Ctx) Crumb(sigctx string, scenario interface{}) {
-	p := os.Getenv("VERIF_CRUMB")
-	if p == "" {
-		return
+	if crumbFile == nil {
+		p := os.Getenv("VERIF_CRUMB")
+		if p == "" {
+			return
+		}
+		f, err := os.OpenFile(p, os.O_CREATE|os.O_RDWR|os.O_TRUNC, 0o644)
+		if err != nil {
+			return
+		}
+		crumbFile = f
 	}
 	b, err := json.Marshal(map[string]interface{}{"sigctx": sigctx, "scenario": scenario})
-	if err == nil {
-		os.WriteFile(p, b, 0o644)
+	if err != nil {
+		return
 	}
+	// one pwrite, no truncate: the previous crumb's tail is blanked with spaces
+	n := len(b)
+	for len(b) < crumbLen {
+		b = append(b, ' ')
+	}
+	crumbLen = n
+	crumbFile.WriteAt(b, 0)
 }
+
+var (
+	crumbFile *os.File
+	crumbLen  int
+)
 
 // NViolations returns the number of distinct signatures so far.
 func (c *Ctx) NViolations() int { c.mu.Lock(); defer c.mu.Unlock(); return len(c.viol) }
